@@ -698,7 +698,7 @@ Fixpoint collect_balanced (g : nat) (x : src) (depth : N) (acc : list ev) : (lis
 
 Definition untag (e : ev) : ev :=
   match e with
-  | EScalar v _ _ st a l => EScalar v TAG_String None st a l
+  | EScalar v _ _ st a l => EScalar v TAG_None None st a l
   | ESeqStart a _ _ l => ESeqStart a TAG_None None l
   | other => other
   end.
